@@ -1396,6 +1396,15 @@ class Builtins:
             r = L1(o.t.arg(0))
             it.assume_axiom(z3.Length(r) == z3.Length(o.t.arg(0)))
             return SV(V.StrV(r), 'str')
+        if O.ctor(o.t) == 'BytesV' and (not a or (vals.tag_of(simp(a[0].t)) == 'StrV' and z3.is_string_value(simp(V.s(simp(a[0].t))))
+                                                  and simp(V.s(simp(a[0].t))).as_string() in ('utf-8', 'utf8'))):
+            # utf-8: either the text (not longer than the bytes) or UnicodeDecodeError
+            U8OK = self.world.uf('utf8ok!', [z3.SeqSort(IntS), BoolS])
+            U8 = self.world.uf('utf8!', [z3.SeqSort(IntS), StrS])
+            b = o.t.arg(0)
+            self.world.ops.outcome(it, [(z3.Not(U8OK(b)), 'UnicodeDecodeError'), (U8OK(b), None)], 'decode utf-8')
+            it.assume_axiom(z3.Length(U8(b)) <= z3.Length(b))
+            return SV(V.StrV(U8(b)), 'str')
         raise Unsupported('bytes.decode')
 
     def dm_strip(self, it, obj, a, k):
